@@ -31,10 +31,12 @@ class State:
         self.counts = Counter()          # hook invocation counters
         self.busy = 0                    # >0 while a monitor makes its own oracle calls
         # M-RW
-        self.rw_mode = "off"             # off | count | specs
+        self.rw_mode = "off"             # off | count | specs (rule sites reflected) | forms (whole forms reflected)
         self.rw_events = []              # current event log (list of tuples)
         self.rw_depth = 0                # nesting of _take_reduction_step
         self.rw_fr_depth = 0             # nesting of _fully_reduce
+        self.rw_skip_forms = False
+        self.rw_form_limit = 500
         self.rw_rules_fired = Counter()
         self.rw_rules_seen = set()
         self.warnings = []
@@ -233,7 +235,7 @@ def _wrap_rule(cls, name, fn, label=None):
             ST.rw_rules_fired[label] += 1
             if ST.rw_mode == "specs":
                 ST.rw_events.append(("fire", label, _spec(self), _spec(out)))
-            elif ST.rw_mode == "count":
+            elif ST.rw_mode != "off":
                 ST.rw_events.append(("fire", label))
         return out
     return w
@@ -251,7 +253,9 @@ def _wrap_step(fn):
             ST.rw_depth -= 1
         if ST.rw_depth == 0:
             ST.counts["rw.root_steps"] += 1
-            if ST.rw_mode != "off":
+            if ST.rw_mode == "forms":
+                ST.rw_events.append(("form", out, _spec(out) if not ST.rw_skip_forms else None, out is self))
+            elif ST.rw_mode != "off":
                 ST.rw_events.append(("form", out))
         return out
     return w
@@ -266,14 +270,20 @@ def _wrap_fully_reduce(fn):
         outer_depth = ST.rw_depth
         ST.rw_depth = 0          # a nested _fully_reduce (inside the normal-form pass) has its own root
         ST.rw_fr_depth += 1
+        outer_skip = ST.rw_skip_forms
         if ST.rw_mode != "off":
-            ST.rw_events.append(("begin", self, ST.rw_fr_depth))
+            root_spec = None
+            if ST.rw_mode == "forms":
+                root_spec = _spec(self)
+                ST.rw_skip_forms = S.size(root_spec) > ST.rw_form_limit if root_spec[0] != "<unreflectable>" else False
+            ST.rw_events.append(("begin", self, ST.rw_fr_depth, root_spec))
         nwarn = len(ST.warnings)
         try:
             out = fn(self)
         finally:
             ST.rw_fr_depth -= 1
             ST.rw_depth = outer_depth
+            ST.rw_skip_forms = outer_skip
         if ST.rw_mode != "off":
             ST.rw_events.append(("end", out, ST.rw_fr_depth + 1, len(ST.warnings) > nwarn))
         return out
